@@ -135,6 +135,11 @@ MUTATIONS = {
         new='                    _bg = get_fg_bg_colors()[1]\n'
             '                    alpha = "#%x%x%x" % _bg if _bg else "#000000"\n',
     ),
+    "c03-jpeg-enabled-unless-minus-1": dict(  # seeded/C03-y1: needs jpeg_quality < -1
+        file="image/iterm2.py", props=["C03"],
+        old='if self.jpeg_quality >= 0 and img.mode == "RGB":',
+        new='if self.jpeg_quality != -1 and img.mode == "RGB":',
+    ),
     "c03-kitty-whole-at-render-size": dict(
         file="image/kitty.py", props=["C03"],
         old="self._get_minimal_render_size()\n            if render_method == WHOLE",
